@@ -95,6 +95,9 @@ def explore(strategy, run_case, *, seed, max_examples, tier, known_ids=(), shrin
     def evaluate(scenario, collect=True):
         signal.signal(signal.SIGALRM, _alarm)
         signal.alarm(CASE_WATCHDOG_S)
+        if os.environ.get('VERIF_DEBUG_CURRENT'):
+            with open(os.environ['VERIF_DEBUG_CURRENT'], 'w') as f:
+                f.write(canon(scenario))
         try:
             res = run_case(scenario)
         finally:
